@@ -1719,13 +1719,28 @@ func (z *zfn) condFacts(c ssa.Value, truth bool) []lin {
 		case token.NEQ:
 			// x != 0 for a non-negative x means x >= 1
 			if k, ok := constInt(x.Y); ok && k == 0 {
-				if _, signed, _ := z.intBits(x.X.Type()); !signed || z.lengthLike(x.X, 0) {
+				if _, signed, _ := z.intBits(x.X.Type()); !signed || z.lengthLike(x.X, 0) || usedAsBoundBefore(x.X, x) {
 					return []lin{leq(linConst(1), a, 0)}
 				}
 			}
 		}
 	}
 	return nil
+}
+
+// usedAsBoundBefore: v was a slice bound in an instruction that dominates `at` — it got past the bounds check, so
+// it is not negative.
+func usedAsBoundBefore(v ssa.Value, at ssa.Instruction) bool {
+	refs := v.Referrers()
+	if refs == nil {
+		return false
+	}
+	for _, r := range *refs {
+		if sl, ok := r.(*ssa.Slice); ok && (sl.High == v || sl.Low == v || sl.Max == v) && dominates(sl, at) {
+			return true
+		}
+	}
+	return false
 }
 
 // factsAt gathers everything known at instruction `at`.
